@@ -24,6 +24,14 @@ impl<'c> Acc<'c> {
         format!("{:?}", v).hash(&mut self.h);
         self.n += 1;
     }
+    /// an error value: Display and Debug rendering (C02)
+    pub fn e<T: std::error::Error>(&mut self, v: T) {
+        format!("{}", v).hash(&mut self.h);
+        if let Some(src) = v.source() {
+            format!("{} {:?}", src, src).hash(&mut self.h);
+        }
+        self.d(v);
+    }
     /// a returned sub-slice: range relative to the input (flags out-of-bounds) + contents
     pub fn s(&mut self, s: &[u8]) {
         self.ctx.rg(s).hash(&mut self.h);
@@ -53,7 +61,7 @@ fn sw_link(a: &mut Acc, b: &[u8]) {
                 a.s(x.slice()); a.d(x.destination()); a.d(x.source()); a.d(x.ether_type()); a.d(x.fcs()); a.d(x.to_header());
                 a.s(x.header_slice()); a.s(x.payload_slice()); a.s(x.payload().payload); a.d(x.payload());
             }
-            Err(e) => a.d(e),
+            Err(e) => a.e(e),
         }
     }
     if let Ok((h, rest)) = Ethernet2Header::from_slice(b) {
@@ -64,7 +72,7 @@ fn sw_link(a: &mut Acc, b: &[u8]) {
             a.s(x.slice()); a.d(x.packet_type()); a.d(x.arp_hardware_type()); a.d(x.sender_address_valid_length());
             a.d(x.sender_address_full()); a.s(x.sender_address()); a.d(x.protocol_type()); a.d(x.to_header());
         }
-        Err(e) => a.d(e),
+        Err(e) => a.e(e),
     }
     match LinuxSllSlice::from_slice(b) {
         Ok(x) => {
@@ -72,7 +80,7 @@ fn sw_link(a: &mut Acc, b: &[u8]) {
             a.d(x.sender_address_full()); a.s(x.sender_address()); a.d(x.protocol_type()); a.d(x.to_header());
             a.s(x.header_slice()); a.s(x.payload_slice()); a.s(x.payload().payload); a.d(x.payload());
         }
-        Err(e) => a.d(e),
+        Err(e) => a.e(e),
     }
     if let Ok((h, rest)) = LinuxSllHeader::from_slice(b) {
         a.d(h); a.s(rest);
@@ -81,14 +89,14 @@ fn sw_link(a: &mut Acc, b: &[u8]) {
         Ok(x) => {
             a.s(x.slice()); a.d(x.priority_code_point()); a.d(x.drop_eligible_indicator()); a.d(x.vlan_identifier()); a.d(x.ether_type()); a.d(x.to_header());
         }
-        Err(e) => a.d(e),
+        Err(e) => a.e(e),
     }
     match SingleVlanSlice::from_slice(b) {
         Ok(x) => {
             a.s(x.slice()); a.d(x.priority_code_point()); a.d(x.drop_eligible_indicator()); a.d(x.vlan_identifier()); a.d(x.ether_type()); a.d(x.to_header());
             a.s(x.header_slice()); a.s(x.payload_slice()); a.s(x.payload().payload);
         }
-        Err(e) => a.d(e),
+        Err(e) => a.e(e),
     }
     if let Ok((h, rest)) = SingleVlanHeader::from_slice(b) {
         a.d(h); a.s(rest);
@@ -99,7 +107,7 @@ fn sw_link(a: &mut Acc, b: &[u8]) {
             a.d(x.is_unmodified()); a.d(x.ptype()); a.d(x.an()); a.d(x.short_len()); a.d(x.packet_nr()); a.d(x.sci_present()); a.d(x.sci());
             a.d(x.next_ether_type()); a.d(x.header_len()); a.d(x.expected_payload_len()); a.d(x.to_header());
         }
-        Err(e) => a.d(e),
+        Err(e) => a.e(e),
     }
     match MacsecSlice::from_slice(b) {
         Ok(x) => {
@@ -109,7 +117,7 @@ fn sw_link(a: &mut Acc, b: &[u8]) {
                 MacsecPayloadSlice::Modified(s) => a.s(s),
             }
         }
-        Err(e) => a.d(e),
+        Err(e) => a.e(e),
     }
     match LaxMacsecSlice::from_slice(b) {
         Ok(x) => {
@@ -121,7 +129,7 @@ fn sw_link(a: &mut Acc, b: &[u8]) {
                 }
             }
         }
-        Err(e) => a.d(e),
+        Err(e) => a.e(e),
     }
     a.d(MacsecHeader::from_slice(b));
 }
@@ -152,7 +160,7 @@ fn sw_net(a: &mut Acc, b: &[u8]) {
             a.d(x.protocol()); a.d(x.header_checksum()); a.d(x.source()); a.d(x.source_addr()); a.d(x.destination()); a.d(x.destination_addr());
             a.s(x.options()); a.d(x.is_fragmenting_payload()); a.d(x.to_header());
         }
-        Err(e) => a.d(e),
+        Err(e) => a.e(e),
     }
     if let Ok((h, rest)) = Ipv4Header::from_slice(b) {
         a.d(h); a.s(rest);
@@ -162,7 +170,7 @@ fn sw_net(a: &mut Acc, b: &[u8]) {
             a.s(x.slice()); a.d(x.version()); a.d(x.traffic_class()); a.d(x.ecn()); a.d(x.dscp()); a.d(x.flow_label()); a.d(x.payload_length());
             a.d(x.next_header()); a.d(x.hop_limit()); a.d(x.source()); a.d(x.source_addr()); a.d(x.destination()); a.d(x.destination_addr()); a.d(x.to_header());
         }
-        Err(e) => a.d(e),
+        Err(e) => a.e(e),
     }
     if let Ok((h, rest)) = Ipv6Header::from_slice(b) {
         a.d(h); a.s(rest);
@@ -171,7 +179,7 @@ fn sw_net(a: &mut Acc, b: &[u8]) {
         Ok(x) => {
             a.s(x.slice()); a.d(x.next_header()); a.s(x.payload()); a.d(x.to_header());
         }
-        Err(e) => a.d(e),
+        Err(e) => a.e(e),
     }
     if let Ok((h, rest)) = Ipv6RawExtHeader::from_slice(b) {
         a.d(h); a.s(rest);
@@ -181,7 +189,7 @@ fn sw_net(a: &mut Acc, b: &[u8]) {
             a.s(x.slice()); a.d(x.next_header()); a.d(x.fragment_offset()); a.d(x.more_fragments()); a.d(x.identification());
             a.d(x.is_fragmenting_payload()); a.d(x.to_header());
         }
-        Err(e) => a.d(e),
+        Err(e) => a.e(e),
     }
     if let Ok((h, rest)) = Ipv6FragmentHeader::from_slice(b) {
         a.d(h); a.s(rest);
@@ -190,7 +198,7 @@ fn sw_net(a: &mut Acc, b: &[u8]) {
         Ok(x) => {
             a.s(x.slice()); a.d(x.next_header()); a.d(x.spi()); a.d(x.sequence_number()); a.s(x.raw_icv()); a.d(x.to_header());
         }
-        Err(e) => a.d(e),
+        Err(e) => a.e(e),
     }
     if let Ok((h, rest)) = IpAuthHeader::from_slice(b) {
         a.d(h); a.s(rest);
@@ -207,7 +215,7 @@ fn sw_net(a: &mut Acc, b: &[u8]) {
                     }
                 }
             }
-            Err(e) => a.d(e),
+            Err(e) => a.e(e),
         }
         let (x, n, rest, st) = Ipv6ExtensionsSlice::from_slice_lax(IpNumber(nh), b);
         a.s(x.slice()); a.d(x.first_header()); a.d(x.is_fragmenting_payload()); a.d(n); a.s(rest); a.d(st);
@@ -231,14 +239,14 @@ fn sw_net(a: &mut Acc, b: &[u8]) {
             a.s(x.slice()); a.d(x.hw_addr_type()); a.d(x.proto_addr_type()); a.d(x.hw_addr_size()); a.d(x.proto_addr_size()); a.d(x.operation());
             a.s(x.sender_hw_addr()); a.s(x.sender_protocol_addr()); a.s(x.target_hw_addr()); a.s(x.target_protocol_addr()); a.d(x.to_packet());
         }
-        Err(e) => a.d(e),
+        Err(e) => a.e(e),
     }
     a.d(ArpPacket::from_slice(b));
     match Ipv6Slice::from_slice_lax(b) {
         Ok(x) => {
             a.s(x.header().slice()); a.s(x.extensions().slice()); a.s(x.payload().payload); a.d(x.payload());
         }
-        Err(e) => a.d(e),
+        Err(e) => a.e(e),
     }
 }
 
@@ -247,7 +255,7 @@ fn sw_transport(a: &mut Acc, b: &[u8]) {
         Ok(x) => {
             a.s(x.slice()); a.d(x.source_port()); a.d(x.destination_port()); a.d(x.length()); a.d(x.checksum()); a.d(x.to_header());
         }
-        Err(e) => a.d(e),
+        Err(e) => a.e(e),
     }
     for lax in [false, true] {
         let r = if lax { UdpSlice::from_slice_lax(b) } else { UdpSlice::from_slice(b) };
@@ -256,7 +264,7 @@ fn sw_transport(a: &mut Acc, b: &[u8]) {
                 a.s(x.slice()); a.s(x.header_slice()); a.s(x.payload()); a.d(x.payload_len_source()); a.d(x.source_port()); a.d(x.destination_port());
                 a.d(x.length()); a.d(x.checksum()); a.d(x.to_header());
             }
-            Err(e) => a.d(e),
+            Err(e) => a.e(e),
         }
     }
     if let Ok((h, rest)) = UdpHeader::from_slice(b) {
@@ -268,7 +276,7 @@ fn sw_transport(a: &mut Acc, b: &[u8]) {
             a.d((x.ns(), x.fin(), x.syn(), x.rst(), x.psh(), x.ack(), x.urg(), x.ece(), x.cwr())); a.d(x.window_size()); a.d(x.checksum()); a.d(x.urgent_pointer());
             a.s(x.options()); sw_opts(a, x.options_iterator()); a.d(x.to_header());
         }
-        Err(e) => a.d(e),
+        Err(e) => a.e(e),
     }
     match TcpSlice::from_slice(b) {
         Ok(x) => {
@@ -277,7 +285,7 @@ fn sw_transport(a: &mut Acc, b: &[u8]) {
             a.d(x.window_size()); a.d(x.checksum()); a.d(x.urgent_pointer()); a.s(x.options()); sw_opts(a, x.options_iterator()); a.d(x.to_header());
             a.d(x.calc_checksum_ipv4([1, 2, 3, 4], [5, 6, 7, 8])); a.d(x.calc_checksum_ipv6([1; 16], [2; 16]));
         }
-        Err(e) => a.d(e),
+        Err(e) => a.e(e),
     }
     if let Ok((h, rest)) = TcpHeader::from_slice(b) {
         a.d(h); a.s(rest);
@@ -286,7 +294,7 @@ fn sw_transport(a: &mut Acc, b: &[u8]) {
         Ok(x) => {
             a.s(x.slice()); a.d(x.header()); a.d(x.header_len()); a.d(x.icmp_type()); a.d(x.type_u8()); a.d(x.code_u8()); a.d(x.checksum()); a.d(x.bytes5to8()); a.s(x.payload());
         }
-        Err(e) => a.d(e),
+        Err(e) => a.e(e),
     }
     a.d(Icmpv4Header::from_slice(b).map(|(h, r)| (h, r.len())));
     match Icmpv6Slice::from_slice(b) {
@@ -294,7 +302,7 @@ fn sw_transport(a: &mut Acc, b: &[u8]) {
             a.s(x.slice()); a.d(x.header()); a.d(x.header_len()); a.d(x.icmp_type()); a.d(x.type_u8()); a.d(x.code_u8()); a.d(x.checksum()); a.d(x.bytes5to8());
             a.s(x.payload()); a.d(x.is_checksum_valid([1; 16], [2; 16])); a.d(x.payload_slice());
         }
-        Err(e) => a.d(e),
+        Err(e) => a.e(e),
     }
     a.d(Icmpv6Header::from_slice(b).map(|(h, r)| (h, r.len())));
     // neighbour discovery option areas: behind the ICMPv6 header and behind each possible fixed part
@@ -355,7 +363,7 @@ fn sw_packet(a: &mut Acc, b: &[u8]) {
             if let Some(p) = n.ip_payload_ref() { a.s(p.payload); a.d(p); }
             a.d(match x.clone() { IpSlice::Ipv4(v) => IpSlice::from(v), IpSlice::Ipv6(v) => IpSlice::from(v) } == x);
         }
-        Err(e) => a.d(e),
+        Err(e) => a.e(e),
     }
     match LaxIpSlice::from_slice(b) {
         Ok((x, st)) => {
@@ -367,7 +375,7 @@ fn sw_packet(a: &mut Acc, b: &[u8]) {
             if let Some(p) = n.ip_payload_ref() { a.s(p.payload); a.d(p); }
             a.d(match x.clone() { LaxIpSlice::Ipv4(v) => LaxIpSlice::from(v), LaxIpSlice::Ipv6(v) => LaxIpSlice::from(v) } == x);
         }
-        Err(e) => a.d(e),
+        Err(e) => a.e(e),
     }
     let mut strict = vec![SlicedPacket::from_ethernet(b).ok(), SlicedPacket::from_linux_sll(b).ok(), SlicedPacket::from_ip(b).ok()];
     for et in [0x0800u16, 0x86dd, 0x8100, 0x88e5, 0x0806] {
